@@ -200,7 +200,7 @@ async def one_case(sh: Shard, rig, case, r, regime):
         sh.count("async_failure")
         if after != B0 or installs:
             sh.violation("C01:async:failed-but-modified", "transfer reported failure but the client block was modified", wit)
-        if fk == "none":
+        if fk == "none" and N > 0:
             if discards:
                 sh.count("self_inflicted_discards_cases")
             else:
@@ -216,6 +216,95 @@ async def one_case(sh: Shard, rig, case, r, regime):
     sh.maximum("async_max_duration", round(t1 - t0, 2))
     if len(sh.samples) < 3 and fault.hit:
         sh.sample(wit)
+
+
+async def cancel_case(sh: Shard, rig, case, r, regime):
+    """A transfer abandoned by its caller (task cancelled in flight, or while it waits for the
+    connection's lock behind another transfer) followed, after quiescence, by a fault-free transfer on
+    the same connection: the abandoned one installs all of its range or nothing, the following one
+    succeeds (judged in virtual time: it gets 120 s)."""
+    from geckolib.driver import GeckoStatusBlockProtocolHandler
+
+    w, spa, sim = rig.w, rig.spa, rig.sim
+    start, length = case["start"], case["length"]
+    S, B0 = make_blocks(r, "random")
+    spa.struct.set_status_block(B0)
+    sim.set_block(S)
+    installs = []
+    orig = spa.struct.replace_status_block_segment
+
+    def tapped(offset, segment):
+        installs.append((offset, len(segment), w.now))
+        return orig(offset, segment)
+
+    spa.struct.replace_status_block_segment = tapped
+
+    def create_for(st, ln):
+        def create():
+            return GeckoStatusBlockProtocolHandler.request(rig.protocol.get_and_increment_sequence_counter(False), st, ln, parms=spa.sendparms)
+
+        return create
+
+    wit = {"start": start, "length": length, "cancel_after": case["cancel_after"], "behind_another": case.get("behind", False), "regime": regime, "case_seed": case["seed"]}
+    try:
+        first = None
+        if case.get("behind"):
+            first = asyncio.ensure_future(spa.struct.get(rig.protocol, create_for(0, 1024), 3))
+            await asyncio.sleep(0.01)
+        t = asyncio.ensure_future(spa.struct.get(rig.protocol, create_for(start, length), 3))
+        await asyncio.sleep(case["cancel_after"])
+        was_done = t.done()
+        t.cancel()
+        try:
+            await t
+        except asyncio.CancelledError:
+            pass
+        except Exception as e:
+            d = describe_exc(e)
+            sh.violation("C01:async:raise", f"struct.get raised {d['type']}: {d['msg']} when cancelled", dict(wit, exc=d))
+        if first is not None:
+            await first
+        await rig.quiesce()
+        sh.evaluations += 1
+        sh.count("async_cancelled_transfers")
+        if not was_done:
+            sh.count("async_transfers_cancelled_in_flight" if not case.get("behind") else "async_transfers_cancelled_behind_another")
+        after = spa.struct.status_block
+        mine = [i for i in installs if i[0] == start and i[1] == length] if not case.get("behind") else installs
+        if len(after) != 1024:
+            sh.violation("C01:async:block-size", f"client block is {len(after)} bytes after a cancelled transfer", wit)
+        else:
+            foreign = [i for i in range(1024) if after[i] != B0[i] and after[i] != S[i]][:8]
+            if foreign:
+                sh.violation("C01:async:foreign-bytes", f"bytes changed to something that is not the spa's value at {foreign} (cancelled transfer)", dict(wit, installs=installs))
+            if not case.get("behind"):
+                part = after[start : start + length]
+                if part != B0[start : start + length] and part != S[start : start + length]:
+                    sh.violation("C01:async:partial-install", "a cancelled transfer left its range partly installed", dict(wit, installs=installs))
+                if not mine and after != B0:
+                    sh.violation("C01:async:failed-but-modified", "a cancelled transfer that installed nothing modified the block", dict(wit, installs=installs))
+        # the connection must still serve a fault-free transfer
+        B1 = bytes((x + 1) % 256 for x in S)
+        spa.struct.set_status_block(B1)
+        st2, ln2 = case["follow"]
+        try:
+            ret = await asyncio.wait_for(spa.struct.get(rig.protocol, create_for(st2, ln2), 10), 120)
+        except asyncio.TimeoutError:
+            ret = "no return within 120 s"
+        except Exception as e:
+            ret = f"raised {type(e).__name__}: {e}"
+        sh.evaluations += 1
+        if ret is not True or spa.struct.status_block[st2 : st2 + ln2] != S[st2 : st2 + ln2]:
+            sh.violation("C01:async:fault-free-failed:after-cancelled-transfer", f"fault-free transfer start={st2} length={ln2} after a cancelled one: {ret!r}", wit)
+        else:
+            sh.count("async_success")
+            sh.nontrivial(f"A:cancel:{start}:{length}:{case['cancel_after']}:{case.get('behind', False)}")
+    finally:
+        try:
+            del spa.struct.replace_status_block_segment
+        except AttributeError:
+            pass
+    sh.see("async_fault_kinds", "cancelled")
 
 
 def shard_async(sh: Shard, regime, cases, seed, wseed):
@@ -240,7 +329,12 @@ def shard_async(sh: Shard, regime, cases, seed, wseed):
             w.set_regime(regime)
             for case in cases:
                 cr = rng("C01case", case["seed"])
-                await one_case(sh, rig, case, cr, regime)
+                if "cancel_after" in case:
+                    await cancel_case(sh, rig, case, cr, regime)
+                    if "C01:async:fault-free-failed:after-cancelled-transfer" in {v["key"] for v in sh.violations}:
+                        return  # the connection is wedged; nothing after this is meaningful
+                else:
+                    await one_case(sh, rig, case, cr, regime)
                 if not await rig.quiesce():
                     sh.count("quiesce_timeouts")
             sh.count("async_queue_pops", sum(1 for e in rig.protocol.queue.events if e[0] == "pop"))
@@ -301,6 +395,17 @@ def gen_cases(tier, seed):
         add("B", st, L, {"kind": "blackout"}, retries=2)
         add("B", st, L, {"kind": "drop-seg", "idx": min(1, n - 1), "attempts": [1, 2]}, retries=3, varying=True)
         add("B", st, L, {"kind": "swap", "idx": 0, "attempts": [1]}, retries=3, varying=True) if n > 1 else None
+    # ---- a retry budget of 0 (nothing may be sent, nothing installed), given explicitly
+    for st, L in [(0, 1024), (256, 479), (5, 1)]:
+        add("B", st, L, none, retries=0)
+        add("B", st, L, {"kind": "blackout"}, retries=0)
+    # ---- transfers abandoned by their caller, then a fault-free one on the same connection
+    for regime in ("B", "J", "H"):
+        for k in range(4 if tier == "quick" else 60):
+            st = r.choice([0, 0, 256, r.randrange(900)])
+            L = r.choice([1024 - st, r.randrange(40, 1025 - st)])
+            cid[0] += 1
+            out[regime].append(dict(start=st, length=L, cancel_after=r.choice([0.0, 0.005, 0.03, 0.1, 0.3, r.uniform(0, 0.7)]), behind=(k % 2 == 1), follow=r.choice([(0, 1024), (st, L)]), fault=none, retries=3, seed=f"{seed}:{cid[0]}"))
     # ---- drawn multi-fault scripts, all three regimes for the atomicity clauses
     nrand = 250 if tier == "quick" else 9000
     for regime in ("B", "J", "H"):
@@ -346,8 +451,9 @@ def main(tier, seed):
     except ImportError:
         run.extra["threaded_part"] = "not built yet"
     fk = run.sets.get("async_fault_kinds", set())
-    for k in ("none", "drop-seg", "dup-seg", "swap", "drop-req", "dup-req", "drop-last", "blackout", "random"):
+    for k in ("none", "drop-seg", "dup-seg", "swap", "drop-req", "dup-req", "drop-last", "blackout", "random", "cancelled"):
         run.need(k in fk, f"fault kind {k} never exercised")
+    run.need(run.counters.get("async_transfers_cancelled_in_flight", 0) >= 2 and run.counters.get("async_transfers_cancelled_behind_another", 0) >= 2, "no transfer was cancelled in flight / while waiting behind another")
     if not run.counters.get("real_world_unavailable"):
         run.need(run.counters.get("real_success", 0) >= 10 and run.counters.get("real_failure", 0) + len([o for o in run.sets.get("real_outcomes", ()) if o.endswith(":True") and not o.startswith("none")]) >= 3, "the real-UDP part observed too few transfers")
     run.need(run.counters.get("async_success", 0) > 200 and run.counters.get("async_failure", 0) > 5, "too few successful/failed transfers observed")
